@@ -10,6 +10,7 @@ for d in sorted(os.listdir(os.path.join(ROOT, "seeded"))):
     m = json.load(open(mp))
     det = os.path.join(ROOT, "seeded", d, "detect.log")
     verdict, by = "not run yet", ""
+    others = sorted(f for f in os.listdir(os.path.join(ROOT, "seeded", d)) if re.fullmatch(r"detect\.C\d+\.log", f))
     if os.path.exists(det):
         t = open(det).read()
         ex = re.search(r"exit=(\d+)", t)
@@ -23,6 +24,17 @@ for d in sorted(os.listdir(os.path.join(ROOT, "seeded"))):
             verdict = "MISSED (check passes)"
         else:
             verdict = "see detect.log"
+    for f in others:
+        t2 = open(os.path.join(ROOT, "seeded", d, f)).read()
+        other = f.split(".")[1]
+        if "VIOLATION property=" in t2:
+            hs2 = re.findall(r"^E1 (\S+)\s+FAIL", t2, re.M) + re.findall(r"^E2 (\S+)\s+violated", t2, re.M)
+            verdict += "; %s's check: CAUGHT" % other
+            by += ("; " if by else "") + ", ".join(sorted(set(hs2)))
+        elif re.search(r"exit=0", t2):
+            verdict += "; %s's check: passes" % other
+        else:
+            verdict += "; %s's check: inconclusive" % other
     rows.append((d, m["property"], m["breaks"], m["needs_to_manifest"], verdict, by))
 out = ["# Seeded changes\n", "Produced by independent sub-agents (given only the property text and a scratch worktree), confirmed by `verify_seed.sh` (suite passes with the change, demonstration fails with it and passes without), then run against the property's quick check with `run_seed.sh` (patch applied to /repo only while the check slices it).\n",
        "| id | property | what it breaks | needs | result | caught by |", "|---|---|---|---|---|---|"]
